@@ -52,7 +52,8 @@ class Covariance(MahalanobisMixin, TransformerMixin):
     X = self._prepare_inputs(X, ensure_min_samples=2)
     M = np.atleast_2d(np.cov(X, rowvar=False))
     if M.size == 1:
-      M = 1. / M
+      # (the pseudo-inverse of a zero variance is zero, as for d > 1)
+      M = 1. / M if M[0, 0] != 0 else M
     else:
       M = scipy.linalg.pinvh(M)
 
